@@ -74,7 +74,7 @@ pub fn family(name: &str) -> Family {
                 rt_bound: 0,
                 max_usks: 3,
                 rt_encs: false,
-                probes: &[],
+                probes: &["tenant"],
             }
         }
         "rotdel" => {
@@ -92,7 +92,7 @@ pub fn family(name: &str) -> Family {
                 rt_bound: 0,
                 max_usks: 2,
                 rt_encs: false,
-                probes: &[],
+                probes: &["tenant"],
             }
         }
         "edit" => Family {
@@ -262,7 +262,7 @@ pub fn family(name: &str) -> Family {
             // C12 over histories: long-lived PKE ciphertexts decrypted again after every operation
             let mut f = family("rotdel");
             f.name = "pke";
-            f.probes = &["pke"];
+            f.probes = &["pke", "tenant"];
             f
         }
         "big" => {
@@ -337,16 +337,16 @@ pub fn family(name: &str) -> Family {
                 "keygen Z::a && A::x",
             ]));
             f.enc_menu.extend(["Z::a", "A::nope", "A::x && A::y", "A::v"]);
-            f.probes = &["forged"];
+            f.probes = &["forged", "tenant"];
             f
         }
         "failrot" => {
             let mut f = family("rot");
             f.name = "failrot";
-            f.alphabet.extend(ops(&["add A::z classic", "disable A::y", "del A::x", "update", "restore"]));
+            f.alphabet.extend(ops(&["add A::z classic", "disable A::y", "del A::x", "update", "restore", "prune A::x || A::nope", "rekey A::x || Z::a", "keygen A::y || A::nope", "prune A::nope || A::x"]));
             f.init.extend(ops(&["snapshot"]));
             f.rt_bound = 1;
-            f.probes = &["forged"];
+            f.probes = &["forged", "tenant"];
             f
         }
         _ => machinery(&format!("unknown family {name}")),
@@ -428,6 +428,7 @@ pub fn build(fam: &Family, hist: &[Op]) -> World {
     w.max_usks = fam.max_usks;
     w.rt_encs = fam.rt_encs;
     w.pke_probes = fam.wants("pke");
+    w.tenant_probe = fam.wants("tenant");
     for op in &fam.init {
         w.apply(op, Mode::Replay);
     }
@@ -532,6 +533,7 @@ pub fn explore(run: &mut Run, fam: &Family, max_depth: usize, cap_secs: f64, own
         w.rt_encs = fam.rt_encs;
         w.full_matrix = true;
         w.pke_probes = fam.wants("pke");
+        w.tenant_probe = fam.wants("tenant");
         for op in &fam.init {
             w.apply(op, Mode::Check);
         }
@@ -762,6 +764,7 @@ pub fn run_path(run: &mut Run, fam_name: &str, path: &[Op], owned: &[&str]) -> (
     let mut w = World::new(&fam.enc_menu, fam.tags.clone());
     w.max_usks = fam.max_usks.max(4);
     w.pke_probes = fam.wants("pke");
+    w.tenant_probe = fam.wants("tenant");
     for op in &fam.init {
         w.apply(op, Mode::Replay);
     }
